@@ -261,6 +261,9 @@ def run(ctx):
         m_lines.append("rx\tcomp\tconcat\t%d\t%s\t%d\t%s\t%s" % (f1, hx(s1), f2, hx(s2), ",".join(hx(s) for s in subs)))
         comp = ("cat", [group_with_flags(t1, f1), group_with_flags(t2, f2)])
         m_meta.append(("ref", comp, "%s + %s" % (s1, s2), 0, subs))
+        fo = rng.choice([0, R.I, R.S, R.A, rng.randrange(64) & ~R.X])
+        m_lines.append("rx\tcomp\tinterp\t%d\t%s\t%d\t-\t%s" % (f1, hx(s1), fo, ",".join(hx(s) for s in subs)))
+        m_meta.append(("ref", ("grp", "", f1, ~f1 & 63, 0, t1), "interpolated %s /%s" % (s1, R.flag_str(f1)), fo, subs))
         n = rng.choice([0, 1, 2, 3])
         m_lines.append("rx\tcomp\trepeat\t%d\t%s\t%d\t-\t%s" % (f1, hx(s1), n, ",".join(hx(s) for s in subs)))
         m_meta.append(("ref", ("qn", 0, str(n), ("grp", "", 0, 0, 1, t1)), "%s * %d" % (s1, n), f1, subs))
